@@ -198,8 +198,10 @@ UNIT = dict(
     dict(id='g_acquire_int', entry='h_g_acquire', mode='INT', cls='unbounded'),
     dict(id='g_aie', entry='h_g_acquire_if_equal', cls='unbounded'),
     dict(id='g_aie_int', entry='h_g_acquire_if_equal', mode='INT', cls='unbounded'),
-    dict(id='retire', entry='h_retire', cls='shape-complete', note='NP=6 nodes in any distribution over the lists'),
-    dict(id='adopt', entry='h_adopt', cls='shape-complete', unwindset=['qsbr_adopt_orphans.0:%d' % (3 + 1)], defs={'L': 3},
+    dict(id='retire', entry='h_retire', cls='shape-complete', defs={'NP': 4}, note='NP=4 nodes in any distribution over the lists'),
+    dict(id='adopt', entry='h_adopt', cls='shape-complete', unwindset=['qsbr_adopt_orphans.0:%d' % (3 + 1)], defs={'L': 3, 'NP': 4}, tiers=['quick'],
+         note='abandoned chain of up to L=3 orphans, NP=4 nodes in total'),
+    dict(id='adopt6', entry='h_adopt', cls='shape-complete', unwindset=['qsbr_adopt_orphans.0:4'], defs={'L': 3, 'NP': 6}, tiers=['thorough'],
          note='abandoned chain of up to L=3 orphans, NP=6 nodes in total'),
     dict(id='try_update', entry='h_try_update', cls='shape-complete', unwindset=['qsbr_try_update_epoch.0:4'], note='registry of up to E=3 entries'),
     dict(id='try_update_int', entry='h_try_update_int', mode='INT', cls='shape-complete', unwindset=['qsbr_try_update_epoch.0:4']),
@@ -210,6 +212,30 @@ UNIT = dict(
     dict(id='dtor', entry='h_dtor', cls='shape-complete'),
   ],
   loop_obligation={'EHCB': 'qsbr.adopt.reinit'},
-  obligations={},
-  canaries=[],
+  obligations={
+    'qsbr.guard.region_balance': dict(deciding=True, text='every guard_ptr/region_guard operation changes region_entries by (non-null guards after) - (non-null guards before), on every path; inside a region the thread is registered'),
+    'qsbr.guard.algebra': dict(deciding=True, text='ctor/copy/move/assign/swap/reset/dtor/reclaim leave the guards holding exactly the words a shared-ownership pointer would hold (copy: both equal; move: source empty; self-assignment and double reset: no change), with enter_region/leave_region called exactly once per null->non-null / non-null->null transition'),
+    'qsbr.leave.balanced': dict(deciding=True, text='leave_region is only called while region_entries >= 1 (no underflow)'),
+    'qsbr.leave.quiescent_only_at_zero': dict(deciding=True, text='leave_region decrements by one and declares a quiescent state iff the counter reaches 0; no guard operation declares one while region_entries > 0'),
+    'qsbr.enter.registers_then_counts': dict(deciding=True, text='enter_region makes sure the thread has a control block, then increments region_entries by one; it never declares a quiescent state'),
+    'qsbr.acquire.snapshot': dict(deciding=True, text="[SEQ+INT] after acquire the guard holds the value returned by the last load of the source (loaded with the caller's order); without interference that is the source value and the source is unchanged"),
+    'qsbr.acquire.enter_before_load': dict(deciding=True, text='[SEQ+INT] when acquire/acquire_if_equal return a non-null guard, the thread was inside a region (region_entries >= 1) when the kept load was performed and no quiescent state was declared since'),
+    'qsbr.acquire_if_equal.iff': dict(deciding=True, text='[SEQ+INT] acquire_if_equal returns true iff the last snapshot of the source equals expected; then the guard equals expected, otherwise it is empty'),
+    'qsbr.reclaim.retires_once': dict(deciding=True, text='reclaim(d) records deleter d on the guarded object and pushes exactly that object once onto the retire list of the current local epoch while the thread is still inside the region, then resets the guard'),
+    'qsbr.retire.current_epoch': dict(deciding=True, text='add_retired_node(p) prepends p to retire_lists[local_epoch] and changes no epoch'),
+    'qsbr.conserve': dict(deciding=True, text='no function loses or duplicates a retired node: every node is in exactly the list the contract names (checked for an arbitrary node / list index), nothing is deleted except through delete_objects of the entered epoch'),
+    'qsbr.free.on_reentry': dict(deciding=True, text='quiescent_state calls delete_objects at most once, exactly when the local epoch changes, on retire_lists[new local epoch]; the new local epoch is old+1 (mod number_epochs) and equals the global epoch observed; so a node retired in local epoch e is freed only when the thread enters e again, number_epochs local steps and at least two global advances later'),
+    'qsbr.advance.all_quiescent': dict(deciding=True, text='[SEQ+INT] try_update_epoch(curr,new) changes the global epoch only by CAS curr->new and only after every registry entry was read and found not (active and at curr-1); it returns false iff some entry was; entries of exited threads (not active) never block (C17)'),
+    'qsbr.advance.keeps_invariant': dict(deciding=True, text='the algorithm invariant "global epoch in {local, local+1} for every active entry" is preserved by an epoch advance and by quiescent_state (under the rely in INT mode)'),
+    'qsbr.orphans.adopt_after_advance': dict(deciding=True, text="adopt_orphans is called iff this thread's CAS advanced the global epoch, after the CAS"),
+    'qsbr.orphans.target_epoch': dict(deciding=True, text='~thread_data tags its orphan with (global_epoch + number_epochs - 1) mod number_epochs of the one global epoch value it loads; adopt_orphans puts every orphan into retire_lists[target_epoch] and nowhere else'),
+    'qsbr.dtor.hands_over_all': dict(deciding=True, text='~thread_data of a registered thread with pending nodes creates exactly one orphan that takes over all number_epochs list heads and abandons it exactly once; without pending nodes nothing is created; an unregistered thread does nothing'),
+    'qsbr.dtor.releases_record': dict(deciding=True, text='~thread_data releases the control block exactly once (the record becomes re-usable) and forgets it (C17)'),
+    'qsbr.adopt.reinit': dict(deciding=True, text='[SEQ+INT] ensure_has_control_block acquires an entry only when the thread has none; whatever the (re-used) record contained, on return local_epoch equals a global epoch value validated by a successful CAS (expected == desired) and is not rewritten afterwards'),
+    'qsbr.epochs.at_least_three': dict(deciding=True, text='number_epochs extracted from the header is >= 3 (two grace periods) and equals the shape the harness was built for'),
+    'qsbr.sync.orders': dict(deciding=True, text='sync precondition: local_epoch store in quiescent_state is release-or-stronger and precedes delete_objects; the epoch CASes are acq_rel; an acquire fence separates the registry scan from the advancing CAS'),
+  },
+  replays={'qsbr.guard.region_balance': dict(src='replay_guard.cpp'), 'qsbr.guard.algebra': dict(src='replay_guard.cpp'),
+           'qsbr.free.on_reentry': dict(src='replay_epoch.cpp'), 'qsbr.advance.all_quiescent': dict(src='replay_epoch.cpp')},
+  canaries=['adopt.full_chain', 'adopt.none', 'adopt.onto_nonempty', 'dtor.never_registered', 'dtor.nothing_pending', 'dtor.orphan', 'ensure.already', 'ensure.new', 'ensure.reused', 'enter.fresh', 'enter.registered', 'g_acquire.fresh', 'g_acquire.null_drop', 'g_acquire.replace', 'g_acquire.vanished', 'g_aie.changed', 'g_aie.false_drop', 'g_aie.true', 'g_aie.true_null', 'g_copy_assign.both', 'g_copy_assign.from_empty', 'g_copy_assign.into_empty', 'g_copy_assign.self', 'g_copy_ctor.nonnull', 'g_copy_ctor.null', 'g_ctor.nonnull', 'g_ctor.null', 'g_move_assign.both', 'g_move_assign.self', 'g_move_ctor.nonnull', 'g_reclaim.last', 'g_reclaim.nested', 'g_reset.dtor_nonnull', 'g_reset.nonnull', 'g_reset.null', 'g_swap.done', 'leave.nested', 'leave.outermost', 'quiescent.advanced', 'quiescent.blocked', 'quiescent.caught_up', 'quiescent.freed_nonempty', 'quiescent_int.advanced', 'quiescent_int.blocked', 'quiescent_int.caught_up', 'quiescent_int.lost_race', 'region_guard.done', 'retire.empty', 'retire.nonempty', 'try_update.advanced', 'try_update.already', 'try_update.blocked', 'try_update.exited_ignored', 'try_update.full_registry', 'try_update_int.advanced', 'try_update_int.blocked', 'try_update_int.lost_race'],
 )
